@@ -1,5 +1,6 @@
 import QeepProps.C01
 import QeepProps.C03
+import QeepProps.C04
 import QeepProps.C06
 import QeepProps.C08
 import QeepProps.C10
